@@ -169,6 +169,10 @@ impl PriceLevel {
     ) -> MatchResult {
         let mut result = MatchResult::new(taker_order_id, incoming_quantity);
         let mut remaining = incoming_quantity;
+        // Orders that can neither trade nor replenish right now (nothing displayed and
+        // nothing to move from hidden). They are kept out of the queue until this match
+        // is over; re-queuing them immediately would make the loop pop them forever.
+        let mut set_aside: Vec<Arc<OrderType<()>>> = Vec::new();
 
         while remaining > 0 {
             if let Some(order_arc) = self.orders.pop() {
@@ -206,6 +210,11 @@ impl PriceLevel {
                     .record_execution(consumed, order_arc.price(), order_arc.timestamp());
 
                 if let Some(updated) = updated_order {
+                    if consumed == 0 && hidden_reduced == 0 {
+                        set_aside.push(Arc::new(updated));
+                        continue;
+                    }
+
                     if hidden_reduced > 0 {
                         self.hidden_quantity
                             .fetch_sub(hidden_reduced, Ordering::AcqRel);
@@ -243,6 +252,10 @@ impl PriceLevel {
             } else {
                 break;
             }
+        }
+
+        for order in set_aside {
+            self.orders.push(order);
         }
 
         result.remaining_quantity = remaining;
